@@ -150,22 +150,8 @@ K({
 })
 
 # ----------------------------------------------------------------------- K6, K7
-K({
-    "id": "K6",
-    "title": "ir_could_match: CouldMatch::could_match / MatchZipper::zip_tys (chalk-ir/src/could_match.rs)",
-    "crate": "chalk-ir",
-    "complete": False,
-    "bound": "every rigid head kind x every head kind, <= 2 children, children are leaves (7 leaf kinds); ids in {0,1}",
-    "mods": [{"into": "chalk-ir/src/could_match.rs", "harness": "chalk_ir/k6_could_match.rs", "name": "verif_k6"}],
-    "targets": [
-        {"file": "chalk-ir/src/could_match.rs", "fn": "could_match", "path": "CouldMatch::could_match (MatchZipper::zip_tys)",
-         "clauses": ["could_match(a,b) == false ==> a and b have no common instance (oracle: first-order unifiability of the shapes)", "symmetric"]},
-    ],
-    "assumptions": ["K6: lifting from the bounded shapes to all types is by the child-wise structure of the filter (a child-wise conservative filter is conservative) — induction not machine-checked",
-                    "K6: impls_for_trait / build_table / solve_from_clauses only call could_match (retain); checked by reading, not by proof"],
-    "trusted": [],
-    "harness_timeout": {"quick": 600, "thorough": 900},
-})
+# (K6 could_match was built twice — symbolic heads, then concrete head pairs with symbolic leaves — and dropped:
+#  the generic Zip machinery reachable from could_match costs CBMC 5-9 GB and > 7 minutes per harness, even for leaf-vs-leaf.)
 K({
     "id": "K7",
     "title": "ir_zip_substs: Zipper::zip_substs default method (chalk-ir/src/zip.rs)",
@@ -254,14 +240,16 @@ K({
 })
 KANI_UNITS["K13"]["applicable_if"] = {"file": COH, "within": r"^impl<I: Interner> SpecializationPriorities<I>$", "fn": "insert", "sig_regex": r"->\s*bool"}
 
-# ------------------------------------------------------------------ K8, K9, K10
+# --------------------------------------------------------------------------- K8
+# (K9 InferenceValue::unify_values and K10 Canonicalizer::add were built and dropped: the derived Clone glue of
+#  GenericArg, reached through ena's probe_value / unify_values, makes CBMC time out even on concrete inputs; see DESIGN.md)
 UCANON = "chalk-solve/src/infer/ucanonicalize.rs"
 K({
     "id": "K8",
     "title": "solve_universe_map: UniverseMap::new, UniverseMapExt::{add, map_universe_to_canonical, map_universe_from_canonical}",
     "crate": "chalk-solve", "tracing_stub": True,
     "complete": False,
-    "bound": {"quick": "<= 2 universes added (vector length <= 3); universe values fully symbolic", "thorough": "<= 4 universes added (length <= 5)"},
+    "bound": {"quick": "every well-formed map of <= 3 universes for the mapping laws, <= 2 for add; universe values fully symbolic", "thorough": "add on 3 universes as well"},
     "mods": [{"into": UCANON, "harness": "chalk_solve/k8_universe_map.rs", "name": "verif_k8"}],
     "targets": [
         {"file": UCANON, "within": r"^impl UniverseMapExt for UniverseMap$", "fn": "add", "path": "UniverseMapExt::add",
@@ -274,39 +262,6 @@ K({
     "assumptions": ["K8: slice::binary_search / Vec::insert as compiled by Kani"],
     "trusted": [],
 })
-K({
-    "id": "K9",
-    "title": "solve_infer_value: <InferenceValue as UnifyValue>::unify_values",
-    "crate": "chalk-solve", "tracing_stub": True,
-    "complete": True,
-    "bound": None,
-    "mods": [{"into": "chalk-solve/src/infer/var.rs", "harness": "chalk_solve/k9_infer_value.rs", "name": "verif_k9"}],
-    "targets": [
-        {"file": "chalk-solve/src/infer/var.rs", "within": r"^impl<I: Interner> UnifyValue for InferenceValue<I>$", "fn": "unify_values", "path": "InferenceValue::unify_values",
-         "clauses": ["pre: not both bound", "Unbound,Unbound -> Unbound(min universe); bound wins; symmetric"]},
-    ],
-    "assumptions": [],
-    "trusted": [],
-})
-CANON = "chalk-solve/src/infer/canonicalize.rs"
-K({
-    "id": "K10",
-    "title": "solve_canonicalizer_add: Canonicalizer::add and the unbound leaf of Canonicalizer::fold_inference_ty",
-    "crate": "chalk-solve", "tracing_stub": True,
-    "complete": False,
-    "bound": "3 inference variables, <= 3 occurrences, one unification",
-    "mods": [{"into": CANON, "harness": "chalk_solve/k10_canonicalizer.rs", "name": "verif_k10"}],
-    "targets": [
-        {"file": CANON, "within": r"^impl<'q, I: Interner> Canonicalizer<'q, I>$", "fn": "add", "path": "Canonicalizer::add",
-         "clauses": ["returns index of first occurrence; appends iff absent; order kept; idempotent; max_universe >= universe of the variable"]},
-        {"file": CANON, "fn": "fold_inference_ty", "path": "Canonicalizer::fold_inference_ty (unbound branch)",
-         "clauses": ["unbound var under ob binders -> BoundVar ^ob.(index of its union-find root); unified unknowns share the index"]},
-    ],
-    "assumptions": ["K10: ena union-find as compiled by Kani; bound-variable branches (which recurse through the folder) not covered"],
-    "trusted": ["ena"],
-    "harness_timeout": {"quick": 600, "thorough": 900},
-})
-
 # -------------------------------------------------------------------------- K11
 RSTACK = "chalk-recursive/src/fixed_point/stack.rs"
 K({
@@ -326,6 +281,30 @@ K({
     ],
     "assumptions": ["K11: Kani aborts on panic, so 'push at the limit panics' is checked with kani::should_panic"],
     "trusted": [],
+})
+
+# -------------------------------------------------------------------------- K12
+AGG = "chalk-engine/src/slg/aggregate.rs"
+K({
+    "id": "K12",
+    "title": "engine_make_solution: <SlgContextOps as AggregateOps>::make_solution against a mock answer stream",
+    "crate": "chalk-engine", "tracing_stub": True,
+    "complete": False,
+    "bound": {"quick": "every answer stream of length <= 2 over {answer, ambiguous answer, floundered, no-more, quantum-exceeded} (31 streams, exhaustive below the bound); answers carry the empty substitution",
+              "thorough": "+ every stream of length 3 whose first two items do not end it (45 streams)"},
+    "mods": [{"into": AGG, "harness": "chalk_engine/k12_make_solution.rs", "name": "verif_k12"}],
+    "targets": [
+        {"file": AGG, "within": r"^impl<I: Interner> AggregateOps<I> for SlgContextOps<'_, I>$", "fn": "make_solution", "path": "AggregateOps::make_solution",
+         "clauses": ["None <=> first item is NoMoreSolutions",
+                     "Some(Unique(s)) <=> first item is an unambiguous answer and the next is NoMoreSolutions; s is that answer unchanged",
+                     "QuantumExceeded seen => Some(Ambig(_))", "Floundered first => Some(Ambig(_))", "ambiguous first answer => never Unique"]},
+    ],
+    "assumptions": [
+        "K12: the answer stream is a mock (the real ForestSolver is unit V5); answers carry the empty substitution, so merge_into_guidance / the anti-unifier are never entered (merge_into_guidance and SlgContextOps::identity_constrained_subst are stubbed by kani::stub)",
+        "K12: " + "tracing replaced by a no-op stand-in (see evidence of the run)",
+    ],
+    "trusted": ["mock AnswerStream"],
+    "harness_timeout": {"quick": 300, "thorough": 600},
 })
 
 # --------------------------------------------------------------------------- V1
@@ -428,6 +407,31 @@ V({
         "V11: the oracle tables (sized_rule / copy_rule) are transcribed from the Rust reference; explicit library impls and how they combine with built-in clauses are the solver's business",
     ],
     "trusted": ["chalk-solve builtin_traits helpers (needs_impl_for_tys, last_field_of_struct)"],
+})
+
+# --------------------------------------------------------------------------- V9
+V({
+    "id": "V9",
+    "title": "lifetime_variance: Unifier::{push_lifetime_outlives_goals, unify_lifetime_var}, Variance::{xform, invert}, UniverseIndex::{can_see, root}",
+    "template": "v9_lifetime_variance.rs",
+    "assumptions": [
+        "V9: ena: unify_var_var on two unbound variables and unify_var_value on an unbound variable cannot fail and have the stated effect on the table view; universe_of_unbound_var reads the table",
+        "V9: InEnvironment::new / WhereClause::cast / EnaVariable::to_lifetime / InferenceValue::from_lifetime are constructors (abstract views)",
+        "V9: relate_lifetime_lifetime and the Ref/Dyn arms of relate_ty_ty are NOT verified (reference patterns are rejected by this Verus); the composite rule is a lemma over push_lifetime_outlives_goals + xform",
+    ],
+    "trusted": ["ena", "chalk-ir casts"],
+})
+
+# --------------------------------------------------------------------------- V4
+V({
+    "id": "V4",
+    "title": "solve_iteration_guard: SolveIteration::solve_iteration (chalk-recursive/src/solve.rs)",
+    "template": "v4_solve_iteration.rs",
+    "assumptions": [
+        "V4: solve_from_clauses / solve_via_simplification are abstract: their result is an uninterpreted function of the solver state and the goal",
+        "V4: Goal::data returns the interned GoalData; derived Clone returns an equal value",
+    ],
+    "trusted": [],
 })
 
 # ===========================================================================
